@@ -51,6 +51,9 @@ func corpus(w *lib.Writer) {
 	for _, t := range []int64{0, 86400 * 40, -1, 951782400, 951868799} {
 		runCase(w, in{Kind: "datet", T: t})
 	}
+	// seeded C16-5: 0 and -0 in one function must stay two constants, in either order
+	runCase(w, in{Kind: "ctx", Lits: []ctxLit{numLit(true, "0"), numLit(false, "0"), numLit(false, "0x0")}})
+	runCase(w, in{Kind: "ctx", Lits: []ctxLit{numLit(false, "0"), numLit(true, "0"), numLit(true, "0.0")}})
 	for _, f := range []float64{math.Pow(2, 53), math.Pow(2, 63), -math.Pow(2, 63), 1e15, 1e100, 0.1, math.Copysign(0, -1), 5e-324, math.MaxFloat64, 1e21, 123456789, 0.1 + 0.2} {
 		runCase(w, in{Kind: "tostr", Bits: bitsOf(f)})
 	}
@@ -688,4 +691,114 @@ func replay(w *lib.Writer, path string) {
 		panic("replay file has no input.kind")
 	}
 	runCase(w, f.Input)
+}
+
+// safeItem draws a well-formed item of a short string in quotes q (so that the literal cannot end
+// early or change the shape of the chunk it stands in).
+func safeItem(r *lib.Rand, q int) item {
+	switch r.Pick(5, 3, 3, 1) {
+	case 0:
+		for {
+			b := r.Intn(256)
+			if b != q && b != '\\' && b != 10 && b != 13 {
+				return item{K: "raw", B: b}
+			}
+		}
+	case 1:
+		return item{K: "esc", B: int([]byte("abfnrtv\\\"'")[r.Intn(10)])}
+	case 2:
+		return item{K: "dec", Ds: digitsOf(r.Intn(256), 3)}
+	default:
+		return item{K: "nl", Nl: r.Intn(4)}
+	}
+}
+
+func numLit(neg bool, text string) ctxLit { return ctxLit{Neg: neg, Src: hx(text)} }
+func strLit(src string) ctxLit            { return ctxLit{Str: true, Src: hx(src)} }
+
+// genContext: literals read IN CONTEXT. A literal's value must not depend on which other literals
+// the same function contains (they share its constant table).
+func genContext(w *lib.Writer, r *lib.Rand, tier string) {
+	// spellings of zero, signed and unsigned: every ordered pair (both orders), each zero seen
+	// through 1/v and tostring(v)
+	zeros := []string{"0", "0.0", "0e0", "0x0", "00", ".0", "0E5"}
+	var zl []ctxLit
+	for _, z := range zeros {
+		zl = append(zl, numLit(false, z), numLit(true, z))
+	}
+	for _, a := range zl {
+		for _, b := range zl {
+			runCase(w, in{Kind: "ctx", Lits: []ctxLit{a, b}})
+		}
+	}
+	// groups of spellings of one value (equal under ==), and of one string
+	groups := [][]ctxLit{
+		zl,
+		{numLit(false, "1"), numLit(false, "1.0"), numLit(false, "0x1"), numLit(false, "1e0"), numLit(false, "10e-1"), numLit(false, "001"), numLit(true, "1"), numLit(true, "0x1")},
+		{numLit(false, "255"), numLit(false, "0xff"), numLit(false, "0XFF"), numLit(false, "2.55e2"), numLit(false, "255.0"), numLit(true, "255")},
+		{numLit(false, "0.5"), numLit(false, ".5"), numLit(false, "5e-1"), numLit(false, "0.50"), numLit(true, ".5")},
+		{numLit(false, "1e-400"), numLit(true, "1e-400"), numLit(false, "0"), numLit(true, "0"), numLit(false, "4.9e-324"), numLit(true, "2e-324")},
+		{numLit(false, "9007199254740993"), numLit(false, "9007199254740992"), numLit(false, "0x20000000000001"), numLit(false, "9.007199254740992e15")},
+		{strLit(`"a"`), strLit(`'a'`), strLit(`"\97"`), strLit(`[[a]]`), strLit("[==[\na]==]"), strLit(`"\097"`)},
+		{strLit(`"0"`), strLit(`'0'`), strLit(`"\48"`), numLit(false, "0"), numLit(true, "0"), strLit(`"-0"`), strLit(`""`), strLit(`[[]]`)},
+		{strLit("\"\\\n\""), strLit("'\\n'"), strLit("[[\n\n]]"), strLit("\"\\10\""), strLit("[[\r\n\r\n]]")},
+	}
+	n3 := 150
+	if tier == "thorough" {
+		n3 = 3000
+	}
+	for i := 0; i < n3; i++ {
+		g := groups[r.Intn(len(groups))]
+		k := r.Range(2, 3)
+		ls := make([]ctxLit, k)
+		for j := range ls {
+			ls[j] = g[r.Intn(len(g))]
+		}
+		if r.Chance(20) { // a literal of another group in between
+			g2 := groups[r.Intn(len(groups))]
+			ls[r.Intn(k)] = g2[r.Intn(len(g2))]
+		}
+		runCase(w, in{Kind: "ctx", Lits: ls})
+	}
+	// random literals, 2-3 per chunk: the single-literal round trips of the other streams, in company
+	nr := 250
+	if tier == "thorough" {
+		nr = 5000
+	}
+	for i := 0; i < nr; i++ {
+		k := r.Range(2, 3)
+		ls := make([]ctxLit, k)
+		for j := range ls {
+			switch r.Pick(5, 3, 2, 1) {
+			case 0:
+				ls[j] = numLit(r.Chance(30), randNumeral(r))
+			case 1:
+				q := []int{'"', '\''}[r.Intn(2)]
+				its := make([]item, r.Range(0, 5))
+				for x := range its {
+					its[x] = safeItem(r, q)
+				}
+				// a decimal escape is always written with three digits here
+				ls[j] = ctxLit{Str: true, Src: lib.Hex(renderItems(q, its))}
+			case 2:
+				body := r.Bytes(r.Range(0, 6), []byte("ab]=\r\n[\x00\xff"))
+				lvl := 3 // no run of three '=' can be formed with the closing bracket from this alphabet? use a level the body cannot close
+				for strings.Contains(string(body)+"]", "]"+strings.Repeat("=", lvl)+"]") {
+					lvl++
+				}
+				ls[j] = ctxLit{Str: true, Src: lib.Hex(longSrc(lvl, body))}
+			default:
+				ls[j] = numLit(r.Chance(50), zeros[r.Intn(len(zeros))])
+			}
+		}
+		if j := r.Intn(k); r.Chance(50) && j > 0 { // repeat an earlier literal verbatim
+			ls[j] = ls[0]
+		}
+		runCase(w, in{Kind: "ctx", Lits: ls})
+	}
+	// a malformed numeral anywhere makes the chunk fail
+	for _, bad := range []string{"1e", "0x", "3x", "1..2"} {
+		runCase(w, in{Kind: "ctx", Lits: []ctxLit{numLit(false, "0"), numLit(false, bad)}})
+		runCase(w, in{Kind: "ctx", Lits: []ctxLit{numLit(true, bad), strLit(`"a"`)}})
+	}
 }
